@@ -16,4 +16,7 @@ core::RunResult run_stream(const core::Plan &plan, bool log);
 core::Plan gen_pending(uint64_t seed, bool thorough);
 core::RunResult run_pending(const core::Plan &plan, bool log);
 
+core::Plan gen_tree(uint64_t seed, bool thorough);
+core::RunResult run_tree(const core::Plan &plan, bool log);
+
 }  // namespace libchecks
